@@ -128,6 +128,8 @@ pub fn eval_case(prop: &str, tape: &[u16], rep: &Report, rejects: &Rejects) -> R
     eval_variant(prop, tape, rep, rejects, false)
 }
 
+/// signature of the recorded C01 finding (see known_findings.json)
+pub const SIG01_DEAD_TRAP: &str = "build-skips-abort-of-dead-arithmetic";
 /// signature of the recorded C02 finding (see known_findings.json)
 pub const SIG_DEAD_TRAP: &str = "release-continues-past-arithmetic-abort-of-debug";
 
@@ -212,11 +214,42 @@ fn eval_variant(prop: &str, tape: &[u16], rep: &Report, rejects: &Rejects, no_tr
                 Err(Abort::Assert) => rep.class("ref:abort-assert"),
                 Err(Abort::Require) => rep.class("ref:abort-require"),
             }
-            if let Err(d) = agrees_with_reference(&r0, &refo) {
-                return Err(mk("debug-build-disagrees-with-semantics", format!("debug build: {d}")));
-            }
-            if let Err(d) = agrees_with_reference(&r1, &refo) {
-                return Err(mk("release-build-disagrees-with-semantics", format!("release build: {d}")));
+            for (lvl, r) in [("debug", &r0), ("release", &r1)] {
+                let Err(d) = agrees_with_reference(r, &refo) else { continue };
+                // Recorded finding (root cause shared with C02/C03): arithmetic whose result is never observed is removed
+                // together with its overflow / division-by-zero abort. Decided with the lazy reference semantics
+                // (Interp::run_lazy: an aborting operation yields poison, the abort happens when poison is observed): if the
+                // eager semantics aborts in arithmetic, the build got further, and the build's outcome is exactly what the
+                // lazy semantics prescribes (or an arithmetic abort somewhere between the two), then every abort that was
+                // skipped belonged to a dead operation. A dropped *live* overflow check disagrees with the lazy run as well.
+                if !no_trap && refo.result == Err(Abort::Arith) {
+                    if let Ok(lazy) = catch(|| Interp::run_lazy(&b.prog, args)) {
+                        let lp = log_payloads(r);
+                        let between = lp.len() >= refo.logs.len() && lp.len() <= lazy.logs.len() && lazy.logs[..lp.len()] == lp[..];
+                        let as_lazy = agrees_with_reference(r, &lazy).is_ok();
+                        let aborts_between = between && abort_class(&r.end) == "arith";
+                        if between && (as_lazy || aborts_between) {
+                            rep.class("known:dead-arithmetic-abort-eliminated");
+                            let (_, summary, replay) = mk(SIG01_DEAD_TRAP, format!("{lvl} build: {d}; it behaves as the lazy semantics prescribes ({} dead aborting operation(s) skipped)", lazy.poisoned_ops));
+                            rep.violation(Violation { signature: SIG01_DEAD_TRAP.into(), summary, replay });
+                            continue;
+                        }
+                    }
+                }
+                // Recorded finding shared with C02: the release-only pass memcpyprop_reverse. Attributed only when the release
+                // build with exactly that pass skipped agrees with the reference semantics on this input.
+                if lvl == "release" {
+                    if let Some(bc) = o1_without_reverse_copy_prop(&b.src) {
+                        let r2 = exec::run_script(&bc, &data);
+                        if agrees_with_reference(&r2, &refo).is_ok() {
+                            rep.class("known:memcpyprop-reverse-miscompile");
+                            let (_, summary, replay) = mk(SIG_REVERSE_COPY_PROP, format!("release build: {d} (release without memcpyprop_reverse agrees with the semantics)"));
+                            rep.violation(Violation { signature: SIG_REVERSE_COPY_PROP.into(), summary, replay });
+                            continue;
+                        }
+                    }
+                }
+                return Err(mk(&format!("{lvl}-build-disagrees-with-semantics"), format!("{lvl} build: {d}")));
             }
         } else {
             let same = r0 == r1 || (matches!((&r0.end, &r1.end), (End::Revert(0) | End::Panic(_), End::Revert(0) | End::Panic(_))) && abort_class(&r0.end) == abort_class(&r1.end) && r0.logs == r1.logs);
@@ -310,7 +343,14 @@ pub fn run(ctx: &Ctx) {
                 }
                 Ok(())
             }
-            Err((sig, summary, _)) => Err(format!("{sig}\u{1}{summary}")),
+            Err((sig, summary, replay)) => {
+                if std::env::var("VERIF_SURVEY").is_ok() {
+                    // development: record every distinct signature and keep going
+                    rep.violation(Violation { signature: format!("{sig}:{}", hash_hex(summary.as_bytes())), summary, replay });
+                    return Ok(());
+                }
+                Err(format!("{sig}\u{1}{summary}"))
+            }
         }
     });
     if let Some((tape, reason)) = out.failure {
